@@ -99,3 +99,22 @@ Fixpoint tags_tree (t : rtree) : list tag :=
 Fixpoint tags_forest (l : list rtree) : list tag := match l with [] => [] | c :: l' => tags_tree c ++ tags_forest l' end.
 
 Definition out_tag (o : rout) : option tag := match o with OItem t _ => Some t | _ => None end.
+
+(* ---- the writer calls that emit a document: one write per tag; [d] = true: default options everywhere (the writer picks
+   the smallest size width), [d] = false: the explicit width recorded in the tree; unknown-size masters by option *)
+Definition opts_known (sl : nat) : wopts := {| o_len := Some sl; o_unknown := false |}.
+Definition opts_unknown : wopts := {| o_len := None; o_unknown := true |}.
+Definition wopt (d : bool) (sl : nat) : wopts := if d then o_default else opts_known sl.
+Definition node_opt (d : bool) (sz : option nat) : wopts := match sz with Some sl => wopt d sl | None => opts_unknown end.
+
+Fixpoint wops_tree (d : bool) (t : rtree) : list wop :=
+  match t with
+  | RLeaf id v _ sl => [OpWrite (TElem id v) (wopt d sl)]
+  | RNode id sz cs =>
+      OpWrite (TStart id) (node_opt d sz) ::
+      (fix go (l : list rtree) : list wop := match l with [] => [] | c :: l' => wops_tree d c ++ go l' end) cs ++
+      [OpWrite (TEnd id) o_default]
+  end.
+Fixpoint wops_forest (d : bool) (l : list rtree) : list wop := match l with [] => [] | c :: l' => wops_tree d c ++ wops_forest d l' end.
+
+Definition op_tag (op : wop) : option tag := match op with OpWrite t _ => Some t | _ => None end.
